@@ -167,7 +167,11 @@ func main() {
 	flag.Var(&cliParams, "P", "override harness parameter key=int (repeatable)")
 	noreplay := flag.Bool("noreplay", false, "skip native replay (debugging only; never registers a verdict)")
 	cpuprof := flag.String("cpuprofile", "", "write cpu profile")
+	replayPath := flag.String("replay", "", "replay one counterexample file natively against /repo and print the outcome")
 	flag.Parse()
+	if *replayPath != "" {
+		os.Exit(replayOne(*replayPath, *repo, *hdir))
+	}
 	if *cpuprof != "" {
 		f, _ := os.Create(*cpuprof)
 		pprof.StartCPUProfile(f)
